@@ -7,7 +7,13 @@ Line-protocol driver for the policy / mutual-close model (properties C05 and C07
 All tokens are decimal integers.
   policy  <onchain> <minDelay> <maxDelay> <maxChan> <eps> <maxHtlcs> <maxHtlcValue> <useChain> <minFee> <maxFee> <maxRoutingFee> <warnmask>
   setup   <outbound> <value> <pushMsat> <holderDelay> <cpDelay> <ctype 0..3> <upfrontSid (0=none)> <upfrontSpendable> <upfrontAllowlisted>
-  chain   <height> <fundingDepth> <closingDepth>
+  chain   <height> <fundingDepth> <closingDepth>          (monitor state forced; for u32-edge heights)
+  blk     <kind 0|1|2> <height> <fundingDepth> <closingDepth>   (a real block through the tracker: unrelated /
+                                                          with the funding tx / with a spend of the funding outpoint)
+  unblk   <height> <fundingDepth> <closingDepth>          (the tip block disconnected)
+          for blk/unblk the numbers are the chain state the generator's chain simulation expects afterwards;
+          the implementation side prints what `Channel::get_chain_state` really returns, so the simulation is
+          checked against the real ChainMonitor on every op.  `chain` and `blk`/`unblk` are not mixed in a case.
   cp      <n> <pointVariant> <feerate> <toHolder> <toCp> <k> (<value> <expiry>)*k <m> (<value> <expiry>)*m
   hold    <n> <feerate> <toHolder> <toCp> <k> (..)*k <m> (..)*m <sigsOk>
   revoke  <n>
@@ -40,13 +46,15 @@ structure St where
   es : EState
   ready : Bool
   dead : Bool
+  /-- 0 = chain untouched, 1 = forced by `chain`, 2 = real blocks (`blk`/`unblk`); not mixed in one case -/
+  mode : Nat
 
 def defaultPolicy : Policy := { Gen.Policy.defaultTestnet with onchain := false }
 
 def St.init : St :=
   { policy := defaultPolicy,
     setup := ⟨true, 0, 0, 0, 0, .staticRemoteKey, none, false, false⟩,
-    chain := ⟨0, 0, 0⟩, es := EState.init, ready := false, dead := false }
+    chain := ⟨0, 0, 0⟩, es := EState.init, ready := false, dead := false, mode := 0 }
 
 def b (n : Nat) : Bool := n != 0
 
@@ -109,11 +117,23 @@ def step (st : St) (toks : List String) : St × String :=
         | some ct =>
           let s : Setup := ⟨b ob, v, push, hd, cd, ct, if up = 0 then none else some up, b ups, b upa⟩
           match setupChannel st.policy s with
-          | .ok () => ({ st with setup := s, ready := true, es := EState.init }, "ok")
+          | .ok () => ({ st with setup := s, ready := true, es := EState.init, mode := 0 }, "ok")
           | .error .panic => ({ st with dead := true }, "panic")
           | .error k => (st, "err:" ++ k.name)
       | "chain", [h, fd, cd] =>
-        if !st.ready then (st, "nochan") else ({ st with chain := ⟨h, fd, cd⟩ }, "ok")
+        if !st.ready then (st, "nochan") else
+        if st.mode = 2 then (st, "bad-op") else
+        ({ st with chain := ⟨h, fd, cd⟩, mode := 1 }, s!"ok {h} {fd} {cd}")
+      -- real blocks: the op line carries the chain state the generator's chain simulation expects
+      -- afterwards; the implementation prints what `get_chain_state` really returns
+      | "blk", [_, h, fd, cd] =>
+        if !st.ready then (st, "nochan") else
+        if st.mode = 1 then (st, "bad-op") else
+        ({ st with chain := ⟨h, fd, cd⟩, mode := 2 }, s!"ok {h} {fd} {cd}")
+      | "unblk", [h, fd, cd] =>
+        if !st.ready then (st, "nochan") else
+        if st.mode ≠ 2 then (st, "bad-op") else
+        ({ st with chain := ⟨h, fd, cd⟩ }, s!"ok {h} {fd} {cd}")
       | "cp", n :: pv :: fr :: th :: tc :: rest =>
         if !st.ready then (st, "nochan") else
         match htlcs? 0 rest with
